@@ -128,6 +128,75 @@ Section HalfInv.
       repeat split; try lia; try assumption; apply S3; assumption.
     Qed.
 
+    (* everything about the value written on the i-th diagonal of the next loop *)
+    Lemma nv_facts i : 0 <= i -> lo + 2 * i <= hi ->
+      let k := lo + 2 * i in
+      let x0 := pickx f d k in
+      let x := newval f d k in
+      0 <= x0 /\ 0 <= x0 - k /\ 1 <= x0 + (x0 - k) /\ x0 <= x /\
+      (x0 < x -> x <= n1 /\ x - k <= n2 /\ M (x - 1) (x - k - 1) = true) /\ scond x (x - k) = false /\
+      (L <= k - 1 <= H -> f (k - 1) + 1 <= x0) /\
+      (L <= k + 1 <= H -> f (k + 1) <= x0) /\
+      ((L <= k - 1 <= H /\ x0 = f (k - 1) + 1) \/ (L <= k + 1 <= H /\ x0 = f (k + 1))).
+    Proof.
+      intros Hi Hk k x0 x.
+      pose proof (pick_spec i Hi Hk) as (P1 & P2 & P3).
+      pose proof (pick_valid i Hi Hk) as (V1 & V2 & V3).
+      pose proof (newval_facts i Hi Hk) as (F1 & F2 & F3).
+      fold k in P1, P2, P3, V1, V2, V3, F1, F2, F3. fold x0 in P1, P2, P3, V1, V2, V3, F1, F2. fold x in F1, F2, F3.
+      repeat split; try assumption; try (apply F2; assumption).
+      match goal with Hl : x0 < x |- _ => rename Hl into Hlt end.
+      pose proof (snake_last n1 n2 M x0 (x0 - k)) as SL.
+      pose proof (snake_diag n1 n2 M x0 (x0 - k)) as (S1 & _ & _).
+      unfold x, newval in *. fold x0 in SL, S1 |- *.
+      replace (fst (snake x0 (x0 - k)) - k - 1) with (snd (snake x0 (x0 - k)) - 1) by lia.
+      apply SL. exact Hlt.
+    Qed.
+
+    (* an invariant of the snake holds of the new value *)
+    Lemma nv_inv (P : Z -> Z -> Prop) k :
+      (forall x y, P x y -> x < n1 -> y < n2 -> M x y = true -> P (x + 1) (y + 1)) ->
+      P (pickx f d k) (pickx f d k - k) -> P (newval f d k) (newval f d k - k).
+    Proof.
+      intros Hs H0. unfold newval.
+      pose proof (snake_diag n1 n2 M (pickx f d k) (pickx f d k - k)) as (S1 & _ & _).
+      replace (fst (snake (pickx f d k) (pickx f d k - k)) - k) with (snd (snake (pickx f d k) (pickx f d k - k))) by lia.
+      now apply snake_inv.
+    Qed.
+
+    (* the new values stay out of the closed quadrant beyond the far corner, provided no entry
+       on or beyond the border is near diagonal 0 of the other half (whose entry there is its origin) *)
+    Lemma nc_generic i : 0 <= i -> lo + 2 * i <= hi ->
+      M (n1 - 1) (n2 - 1) = false ->
+      (forall k, L <= k <= H -> n1 <= f k \/ n2 <= f k - k -> ~ (-1 <= k - delta <= 1)) ->
+      ~ (n1 <= newval f d (lo + 2 * i) /\ n2 <= newval f d (lo + 2 * i) - (lo + 2 * i)).
+    Proof.
+      intros Hi Hk HMc Hblk [Hx Hy].
+      destruct (nv_facts i Hi Hk) as (V1 & V2 & V3 & F1 & F2 & F3 & P1 & P2 & P3).
+      set (k := lo + 2 * i) in *. set (x := newval f d k) in *. set (x0 := pickx f d k) in *.
+      destruct (Z_lt_le_dec x0 x) as [Hlt|Hge].
+      - destruct (F2 Hlt) as (G1 & G2 & G3).
+        assert (x = n1) by lia. assert (x - k = n2) by lia.
+        replace (x - 1) with (n1 - 1) in G3 by lia. replace (x - k - 1) with (n2 - 1) in G3 by lia. congruence.
+      - assert (Ex : x0 = x) by lia.
+        destruct I as [ID _ _ _ _ _ (IL1 & IL2 & IL3 & IL4 & IL5) Iv _ _ _ Inc _ _ IbqR IbqB _ _ _].
+        destruct P3 as [(Wk & Ek)|(Wk & Ek)].
+        + pose proof (Inc _ Wk) as N1.
+          assert (Hx1 : x = n1) by lia.
+          destruct (Z.eq_dec (x - k) n2) as [Ey|Ey].
+          * apply (Hblk _ Wk); lia.
+          * destruct (IbqB _ Wk ltac:(lia)) as (B1 & B2).
+            set (t := k - 1 + 2 * (f (k - 1) - (k - 1) - n2)) in *.
+            pose proof (Inc t ltac:(unfold t in *; lia)) as N2. unfold t in *. lia.
+        + pose proof (Inc _ Wk) as N1.
+          assert (Hy1 : x - k = n2) by lia.
+          destruct (Z.eq_dec x n1) as [Ey|Ey].
+          * apply (Hblk _ Wk); lia.
+          * destruct (IbqR _ Wk ltac:(lia)) as (B1 & B2).
+            set (t := k + 1 - 2 * (f (k + 1) - n1)) in *.
+            pose proof (Inc t ltac:(unfold t in *; lia)) as N2. unfold t in *. lia.
+    Qed.
+
     (* a value that is rewritten grows *)
     Lemma newval_mono i : 0 <= i -> lo + 2 * i <= hi -> L <= lo + 2 * i <= H ->
       f (lo + 2 * i) + 1 <= newval f d (lo + 2 * i).
@@ -157,12 +226,13 @@ Section HalfInv.
 
   Section Step.
     Variables (D : Z) (f : Z -> Z) (s e sp ep L H : Z) (f' : Z -> Z) (s' e' N : Z).
+    Variables (off vlen : Z) (chk : bool) (g : Z -> Z).
     Hypothesis I : HI D f s e sp ep L H.
     Let d := D + 1.
     Let lo := - d + s.
     Let hi := d - e.
     Hypothesis HN : 2 * N = hi - lo + 2.
-    Hypothesis C : Cur n1 n2 M d lo f s e N f' s' e'.
+    Hypothesis C : Cur n1 n2 M delta off vlen chk g d lo f s e N f' s' e'.
     (* the new entries do not enter the closed quadrant beyond the far corner *)
     Hypothesis NCnew : forall i, 0 <= i < N ->
       ~ (n1 <= newval f d (lo + 2 * i) /\ n2 <= newval f d (lo + 2 * i) - (lo + 2 * i)).
@@ -178,7 +248,7 @@ Section HalfInv.
     Qed.
 
     Lemma st_new i : 0 <= i < N -> f' (lo + 2 * i) = newval f d (lo + 2 * i).
-    Proof. intros Hi. exact (cur_new _ _ _ _ _ _ _ _ _ _ _ _ C i Hi). Qed.
+    Proof. intros Hi. exact (cur_new _ _ _ _ _ _ _ _ _ _ _ _ _ _ _ _ _ C i Hi). Qed.
 
     Lemma st_form k : (exists i, 0 <= i < N /\ k = lo + 2 * i) \/ (L <= k <= H /\ f' k = f k) \/ (~ (L' <= k <= H') /\ f' k = f k).
     Proof.
@@ -186,11 +256,11 @@ Section HalfInv.
       destruct (Z.Even_or_Odd (k - lo)) as [[q Hq]|[q Hq]].
       - destruct (Z_le_dec lo k) as [H1|H1]; [destruct (Z_le_dec k hi) as [H2|H2]|].
         + left. exists q. lia.
-        + right. assert (E : f' k = f k) by (apply (cur_old _ _ _ _ _ _ _ _ _ _ _ _ C); intros i Hi; lia).
+        + right. assert (E : f' k = f k) by (apply (cur_old _ _ _ _ _ _ _ _ _ _ _ _ _ _ _ _ _ C); intros i Hi; lia).
           destruct (Z_le_dec k H'); [left; split; [unfold H' in *; lia|exact E]|right; split; [unfold L', H' in *; lia|exact E]].
-        + right. assert (E : f' k = f k) by (apply (cur_old _ _ _ _ _ _ _ _ _ _ _ _ C); intros i Hi; lia).
+        + right. assert (E : f' k = f k) by (apply (cur_old _ _ _ _ _ _ _ _ _ _ _ _ _ _ _ _ _ C); intros i Hi; lia).
           destruct (Z_le_dec L' k); [left; split; [unfold L' in *; lia|exact E]|right; split; [unfold L', H' in *; lia|exact E]].
-      - right. assert (E : f' k = f k) by (apply (cur_old _ _ _ _ _ _ _ _ _ _ _ _ C); intros i Hi; lia).
+      - right. assert (E : f' k = f k) by (apply (cur_old _ _ _ _ _ _ _ _ _ _ _ _ _ _ _ _ _ C); intros i Hi; lia).
         destruct (Z_le_dec L' k) as [H1|H1]; [destruct (Z_le_dec k H') as [H2|H2]|].
         + left. split; [|exact E]. unfold L', H' in *. lia.
         + right. split; [lia|exact E].
@@ -199,9 +269,9 @@ Section HalfInv.
 
     (* diagonals of the other parity keep their value *)
     Lemma st_old i : f' (lo + 2 * i + 1) = f (lo + 2 * i + 1).
-    Proof. apply (cur_old _ _ _ _ _ _ _ _ _ _ _ _ C). intros j Hj. lia. Qed.
+    Proof. apply (cur_old _ _ _ _ _ _ _ _ _ _ _ _ _ _ _ _ _ C). intros j Hj. lia. Qed.
     Lemma st_old' i : f' (lo + 2 * i - 1) = f (lo + 2 * i - 1).
-    Proof. apply (cur_old _ _ _ _ _ _ _ _ _ _ _ _ C). intros j Hj. lia. Qed.
+    Proof. apply (cur_old _ _ _ _ _ _ _ _ _ _ _ _ _ _ _ _ _ C). intros j Hj. lia. Qed.
 
     Lemma st_grow k : L <= k <= H -> f k <= f' k.
     Proof.
@@ -405,9 +475,9 @@ Section HalfInv.
     Lemma st_sealR : 0 < e' -> exists k, L' <= k <= H' /\ k <= D + 1 - e' /\ n1 <= f' k.
     Proof.
       intros He. pose proof st_basic as B.
-      destruct (cur_se _ _ _ _ _ _ _ _ _ _ _ _ C) as (S1 & S2 & _ & S3).
+      destruct (cur_se _ _ _ _ _ _ _ _ _ _ _ _ _ _ _ _ _ C) as (S1 & S2 & _ & S3).
       destruct (Z_lt_le_dec e e') as [Hlt|Hge].
-      - destruct (cur_e _ _ _ _ _ _ _ _ _ _ _ _ C Hlt) as (i & Hi & Hv & Hc).
+      - destruct (cur_e _ _ _ _ _ _ _ _ _ _ _ _ _ _ _ _ _ C Hlt) as (i & Hi & Hv & Hc).
         unfold nv in Hv.
         assert (Wk : L' <= lo + 2 * i <= H') by (unfold L', H'; lia).
         destruct (st_baR (lo + 2 * i) Wk ltac:(rewrite st_new by assumption; exact Hv)) as (B1 & B2 & B3).
@@ -419,9 +489,9 @@ Section HalfInv.
     Lemma st_sealB : 0 < s' -> exists k, L' <= k <= H' /\ - (D + 1) + s' <= k /\ n2 <= f' k - k.
     Proof.
       intros Hs. pose proof st_basic as B.
-      destruct (cur_se _ _ _ _ _ _ _ _ _ _ _ _ C) as (S1 & S2 & _ & S3).
+      destruct (cur_se _ _ _ _ _ _ _ _ _ _ _ _ _ _ _ _ _ C) as (S1 & S2 & _ & S3).
       destruct (Z_lt_le_dec s s') as [Hlt|Hge].
-      - destruct (cur_s _ _ _ _ _ _ _ _ _ _ _ _ C Hlt) as (i & Hi & Hv1 & Hv & Hc).
+      - destruct (cur_s _ _ _ _ _ _ _ _ _ _ _ _ _ _ _ _ _ C Hlt) as (i & Hi & Hv1 & Hv & Hc).
         unfold nv in Hv, Hv1.
         assert (Wk : L' <= lo + 2 * i <= H') by (unfold L', H'; lia).
         destruct (st_baB (lo + 2 * i) Wk ltac:(rewrite st_new by assumption; exact Hv)) as (B1 & B2 & B3).
@@ -433,14 +503,14 @@ Section HalfInv.
     Lemma st_tgt : Z.min delta (D + 1 + 1) <= D + 1 + 1 - e' /\ - (D + 1 + 1) + s' <= Z.max delta (- (D + 1 + 1)).
     Proof.
       pose proof st_basic as B.
-      destruct (cur_se _ _ _ _ _ _ _ _ _ _ _ _ C) as (S1 & S2 & _ & S3).
+      destruct (cur_se _ _ _ _ _ _ _ _ _ _ _ _ _ _ _ _ _ C) as (S1 & S2 & _ & S3).
       split.
       - destruct (Z_lt_le_dec e e') as [Hlt|Hge].
-        + destruct (cur_e _ _ _ _ _ _ _ _ _ _ _ _ C Hlt) as (i & Hi & Hv & Hc).
+        + destruct (cur_e _ _ _ _ _ _ _ _ _ _ _ _ _ _ _ _ _ C Hlt) as (i & Hi & Hv & Hc).
           unfold nv in Hv. pose proof (NCnew i Hi). unfold hi, lo, d in *. lia.
         + dI. lia.
       - destruct (Z_lt_le_dec s s') as [Hlt|Hge].
-        + destruct (cur_s _ _ _ _ _ _ _ _ _ _ _ _ C Hlt) as (i & Hi & Hv1 & Hv & Hc).
+        + destruct (cur_s _ _ _ _ _ _ _ _ _ _ _ _ _ _ _ _ _ C Hlt) as (i & Hi & Hv1 & Hv & Hc).
           unfold nv in Hv, Hv1. pose proof (NCnew i Hi). unfold hi, lo, d in *. lia.
         + dI. lia.
     Qed.
@@ -448,7 +518,7 @@ Section HalfInv.
     Theorem HI_step : HI (D + 1) f' s' e' s e L' H'.
     Proof.
       pose proof st_basic as B.
-      destruct (cur_se _ _ _ _ _ _ _ _ _ _ _ _ C) as (S1 & S2 & (a' & b' & Sa & Sb) & S3).
+      destruct (cur_se _ _ _ _ _ _ _ _ _ _ _ _ _ _ _ _ _ C) as (S1 & S2 & (a' & b' & Sa & Sb) & S3).
       split.
       - lia.
       - dI. exists (a + a'), (b + b'), a, b. lia.
